@@ -315,7 +315,9 @@ func (sms *sqlMetadataStore) CompleteMultipartUpload(ctx context.Context, tx *sq
 		if err != nil {
 			return nil, err
 		}
-		if opts != nil && opts.IfNoneMatchStar && nullVersionEntity != nil {
+		// A null version that is a delete marker or hidden below a newer delete
+		// marker is not a current object: If-None-Match: * still succeeds.
+		if opts != nil && opts.IfNoneMatchStar && nullVersionEntity != nil && nullVersionEntity.IsLatest && !nullVersionEntity.IsDeleteMarker {
 			return nil, metadatastore.ErrPreconditionFailed
 		}
 		if nullVersionEntity != nil {
